@@ -1189,7 +1189,10 @@ void MatrixMoorePenrosePseudoinverse(matrix *m, matrix *inv)
   /*(A'A)-1*/
   NewMatrix(&i_m_t_m, m_t_m->row, m_t_m->col);
   //MatrixLUInversion(m_t_m, i_m_t_m);
-  MatrixPseudoinversion(m_t_m, i_m_t_m);
+  /* A'A is symmetric positive definite for a full column rank A: invert it directly.
+   * The eigenvector based MatrixPseudoinversion is wrong for repeated eigenvalues
+   * (the eigenvectors returned for a repeated eigenvalue are not orthogonal). */
+  MatrixInversion(m_t_m, i_m_t_m);
   
   DelMatrix(&m_t_m);
 
